@@ -135,6 +135,30 @@ def edits(root, sm):
             def f(root, ci=ci):
                 containers(root)[ci][0].append(mk("multikey", name="zz.dotted.m"))
             add("R9:dotted-multikey-name-without-attribute", depth, f)
+    # R9 names with a non-ASCII letter or digit after the first character (appended, so that no
+    # other rule is touched)
+    for ci, (el, cname) in enumerate(conts):
+        depth = 0 if cname is None else 1
+        C = sm.top if cname is None else sm.types.get(cname)
+        if C is not None and C.kt in ("basic-key", "identifier"):
+            for tag, nm in (("key", "stra\u00dfe"), ("multikey", "caf\u00e9"), ("key", "kind\u00b2"),
+                            ("key", "a\u0660")):
+                def f(root, ci=ci, tag=tag, nm=nm):
+                    containers(root)[ci][0].append(mk(tag, name=nm, attribute="zz_na"))
+                add("R9:non-ascii-in-%s-name" % tag, depth, f)
+            if cname is None and sts:
+                def f(root, ci=ci):
+                    containers(root)[ci][0].append(mk("section", type=root.findall("sectiontype")[0].get("name"),
+                                                      name="n\u00e4me", attribute="zz_ns"))
+                add("R9:non-ascii-in-section-name", depth, f)
+
+    def f(root):
+        root.append(mk("sectiontype", name="caf\u00e9"))
+    add("R9:non-ascii-in-type-name", 0, f)
+
+    def f(root):
+        root.append(mk("abstracttype", name="kind\u00b2"))
+    add("R9:non-ascii-in-abstracttype-name", 0, f)
     # R3 use before definition
     for ci, (el, cname) in enumerate(conts):
         depth = 0 if cname is None else 1
@@ -242,6 +266,30 @@ def edits(root, sm):
                     d.text = "1"
                     e.append(d)
                 add("R8:unkeyed-default-on-wildcard", depth, f)
+            if it.tag == "key" and name == "+":
+                def f(root, at=at):
+                    e = at(root)
+                    e.attrib.pop("required", None)
+                    e.set("default", "v")
+                add("R8:default-attribute-on-wildcard-key", depth, f)
+
+                def f(root, at=at):
+                    e = at(root)
+                    for c in list(e):
+                        e.remove(c)
+                    e.attrib.pop("datatype", None)
+                    e.attrib.pop("required", None)
+                    e.set("default", "v")
+                add("R8:default-attribute-on-wildcard-key-without-elements", depth, f)
+
+                def f(root, at=at):
+                    e = at(root)
+                    for c in list(e):
+                        e.remove(c)
+                    e.attrib.pop("datatype", None)
+                    e.set("required", "yes")
+                    e.set("default", "v")
+                add("R7:default-attribute-on-required-wildcard-key", depth, f)
             if it.tag == "key" and name == "+":
                 def f(root, at=at):
                     e = at(root)
